@@ -73,6 +73,7 @@ RULES = {
     "add_child": fd(t=I, how=st.sampled_from(["add_child", "new_child", "insert_child", "insert_new_child", "reinsert_existing",
                                                "add_existing"]), pos=I),
     "remove_child": fd(t=I, su=B),
+    "reversible_remove_child": fd(t=I, su=B, undo=B),
     "set_child_nodes": fd(t=I, seed=st.integers(0, 2 ** 31)),
     "set_rooted": fd(v=st.sampled_from([True, False, None])),
 }
@@ -343,6 +344,31 @@ class Interp(object):
                 if rt.taxon[j] is not None:
                     expect.subtract([rt.taxon[j]])
             expect = +expect
+        elif op == "reversible_remove_child":
+            cand = [i for i in nonseed if (set(x for x in cl[i] if not x.startswith("#")) != set(leaf_labels))]
+            if not cand:
+                return
+            i = cand[a["t"] % len(cand)]
+            # (documented: unifurcation suppression of the reversible form is for unrooted trees only)
+            su = bool(a["su"]) and tree.is_rooted is not True
+            par = rt.obj[rt.parent[i]]
+            rec = ctx.call(key, par.reversible_remove_child, rt.obj[i], suppress_unifurcations=su)
+            gone = collections.Counter(rt.taxon[j] for j in rt.leaves(i) if rt.taxon[j] is not None)
+            if a["undo"]:
+                mid, mproblems = snapshot(tree)
+                mt = mid.leaf_taxa_multiset()
+                mt.pop(None, None)
+                ctx.check(not mproblems and mt == +(expect - gone), "well_formed_between_removal_and_reinsertion",
+                          "C03.reversible_remove_child:intermediate", lambda: "%r leaf taxa %r; removing node %d of %s su=%r" % (
+                              mproblems, sorted(mt.elements()), i, rt.canon(), su))
+                ctx.call(key + ":reinsert_nodes", par.reinsert_nodes, rec)
+                back, bproblems = snapshot(tree)
+                ctx.check(not bproblems and back.canon() == rt.canon() and [id(o) for o in sorted(back.obj, key=id)] == [id(o) for o in sorted(rt.obj, key=id)],
+                          "reinsert_nodes_restores_topology", "C03.reinsert_nodes",
+                          lambda: "%r before %s after %s; removed node %d su=%r" % (bproblems, rt.canon(), back.canon(), i, su))
+                ctx.cls("reversible_remove_child:undone")
+            else:
+                expect = +(expect - gone)
         elif op == "set_child_nodes":
             if not internals:
                 return
@@ -414,6 +440,8 @@ def arg_grid(op, nn):
         out = [{"t": t, "ub": f[0], "su": f[1]} for t in T for f in F3[:3]]
     elif op == "remove_child":
         out = [{"t": t, "su": su} for t in T for su in (False, True)]
+    elif op == "reversible_remove_child":
+        out = [{"t": t, "su": su, "undo": u} for t in T for su in (False, True) for u in (False, True)]
     elif op == "prune_nodes":
         out = [{"t": t, "t2": 0} for t in T]
     elif op == "edge_collapse":
